@@ -851,8 +851,115 @@ def gen_case(rng, malformed, accttypes):
     return {"init": init, "uuids": uuids, "dtclient": gen_dt(rng, False, False), "op": op}
 
 
+ACCT_FLAGS = [("checking", "-C", "StmtRq"), ("savings", "-S", "StmtRq"), ("moneymrkt", "-M", "StmtRq"), ("creditline", "-L", "StmtRq")]
+
+
+def gen_cli_date(rng):
+    """-> (the text typed after --start/--end/--asof, the datetime it denotes as the request will carry it: normalised to UTC)"""
+    y, mo, d = rng.randint(1000, 9998), rng.randint(1, 12), rng.randint(1, 28)
+    style = rng.choice(["date", "sec", "ms", "off", "off", "off", "off"])
+    if style == "date":
+        return "%04d%02d%02d" % (y, mo, d), {"y": y, "mo": mo, "d": d, "h": 0, "mi": 0, "s": 0, "us": 0, "off": 0, "libutc": True}
+    h, mi, sec = rng.randint(0, 23), rng.randint(0, 59), rng.randint(0, 59)
+    ms = rng.choice([0, 0, 1, 499, 500, 999, rng.randint(0, 999)])
+    txt = "%04d%02d%02d%02d%02d%02d" % (y, mo, d, h, mi, sec)
+    off = 0
+    if style != "sec":
+        if style == "ms" or rng.random() < 0.7:
+            txt += ".%03d" % ms
+        else:
+            ms = 0
+        if style == "off":
+            oh = rng.choice([-12, -11, -8, -5, -3, -1, 0, 0, 1, 3, 5, 9, 12, 14, rng.randint(-12, 14)])
+            om = rng.choice([0, 0, 0, 30, 45, 15, rng.randint(0, 59)])
+            neg = oh < 0 or (oh == 0 and rng.random() < 0.4)
+            off = (-1 if neg else 1) * (abs(oh) * 60 + om)
+            b = ("-" if neg else rng.choice(["+", "+", ""])) + "%d" % abs(oh)
+            if om or rng.random() < 0.2:
+                b += ".%02d" % om
+            if rng.random() < 0.5:
+                b += ":" + rng.choice(["EST", "PST", "NST", "IST", "XYZ", "GMT"])
+            txt += "[" + b + "]"
+    else:
+        ms = 0
+    utc = datetime.datetime(y, mo, d, h, mi, sec, ms * 1000) - datetime.timedelta(minutes=off)
+    return txt, {"y": utc.year, "mo": utc.month, "d": utc.day, "h": utc.hour, "mi": utc.minute, "s": utc.second, "us": utc.microsecond,
+                 "off": 0, "libutc": True}
+
+
+def gen_frontdoor_case(rng):
+    """a statement / closing-statement request asked for on the ofxget command line, together with the equivalent API case"""
+    import ofxtools.Client as CL
+    stmt = rng.random() < 0.7
+    init = {"version": rng.choice(VERSIONS), "userid": gen_text(rng, 1, 20, "alnum")}
+    argv = ["stmt" if stmt else "stmtend", "--url", "https://ofx.example.invalid/ofx", "--dryrun", "--version", str(init["version"]), "-u", init["userid"]]
+
+    def opt(flag, key, val):
+        init[key] = val
+        argv.extend([flag, val])
+    if rng.random() < 0.7:
+        opt("--org", "org", gen_text(rng, 1, 12, "alnum"))
+        if rng.random() < 0.7:
+            opt("--fid", "fid", gen_text(rng, 1, 8, "alnum"))
+    if rng.random() < 0.5:
+        opt("--clientuid", "clientuid", gen_uuid(rng))
+    if rng.random() < 0.25:
+        opt("--appid", "appid", gen_text(rng, 1, 5, "alnum"))
+    if rng.random() < 0.25:
+        opt("--appver", "appver", gen_text(rng, 1, 4, "alnum"))
+    if rng.random() < 0.25:
+        opt("--language", "language", rng.choice(["ENG", "FRA", "SPA"]))
+    opt("--bankid", "bankid", gen_text(rng, 1, 9, "alnum"))
+    if stmt:
+        opt("--brokerid", "brokerid", gen_text(rng, 1, 22, "alnum"))
+    init["prettyprint"] = rng.random() < 0.5
+    if init["prettyprint"]:
+        argv.append("--pretty")
+    init["close_elements"] = not (init["version"] < 200 and rng.random() < 0.4)
+    if not init["close_elements"]:
+        argv.append("--unclosedelements")
+    dates = {}
+    for flag, key in (("-s", "dtstart"), ("-e", "dtend")) + ((("-a", "dtasof"),) if stmt else ()):
+        if rng.random() < 0.75:
+            txt, d = gen_cli_date(rng)
+            dates[key] = d
+            argv.extend([flag, txt])
+    flags = {"inctran": True, "incbal": True, "incpos": True, "incoo": False}
+    if stmt:
+        for cli, key, val in (("--no-transactions", "inctran", False), ("--no-balances", "incbal", False), ("--no-positions", "incpos", False), ("--open-orders", "incoo", True)):
+            if rng.random() < 0.3:
+                flags[key] = val
+                argv.append(cli)
+    rqs = []
+    kinds = ACCT_FLAGS + [("creditcard", "-c", "CcStmtRq")] + ([("investment", "-i", "InvStmtRq")] if stmt else [])
+    chosen = [k for k in kinds if rng.random() < 0.45] or [rng.choice(kinds)]
+    for name, cli, k in kinds:                       # the order in which ofxget builds the requests
+        if (name, cli, k) not in chosen:
+            continue
+        for _ in range(rng.choice([1, 1, 2])):
+            acct = gen_text(rng, 1, 12, "alnum")
+            argv.extend([cli, acct])
+            if stmt:
+                r = {"k": k, "acctid": acct, "dtstart": dates.get("dtstart"), "dtend": dates.get("dtend"), "inctran": flags["inctran"]}
+                if k == "StmtRq":
+                    r["accttype"] = name.upper()
+                if k == "InvStmtRq":
+                    r.update(dtasof=dates.get("dtasof"), incoo=flags["incoo"], incpos=flags["incpos"], incbal=flags["incbal"])
+            else:
+                r = {"k": "StmtEndRq" if k == "StmtRq" else "CcStmtEndRq", "acctid": acct, "dtstart": dates.get("dtstart"), "dtend": dates.get("dtend")}
+                if k == "StmtRq":
+                    r["accttype"] = name.upper()
+            rqs.append(r)
+    gen = rng.random() < 0.8
+    if not gen:
+        argv.append("--nonewfileuid")
+    return {"init": init, "uuids": [gen_uuid(rng) for _ in range(len(rqs) + 2)], "dtclient": gen_dt(rng, False, False) | {"off": 0, "libutc": True, "name": None},
+            "op": {"kind": "statements", "password": CL.AUTH_PLACEHOLDER, "gen": gen, "requests": rqs}, "argv": argv}
+
+
 def closed_twin(case):
     t = json.loads(json.dumps(case))
+    t.pop("argv", None)
     t["init"]["close_elements"] = True
     if t["op"]["kind"] == "profile":
         t["op"]["close_elements"] = None
@@ -868,12 +975,8 @@ def eff_close(case):
 
 
 # ------------------------------------------------------------------ one case through everything
-def observe(case):
-    """run the implementation; read the bytes back twice.
-    -> (outcome, header fields, problems): outcome ('ok', header, tree) uses the independent reader's tree;
-    problems lists what makes the bytes not a well-formed OFX file for the library's reader (parse + convert) and
-    any difference between the two readers' trees."""
-    out = run_impl(case)
+def read_back_bytes(out):
+    """(run outcome) -> (outcome, header fields, problems): the bytes read back by the independent reader and by the library"""
     if out[0] != "ok":
         return out, None, None
     data = out[1]
@@ -895,6 +998,40 @@ def observe(case):
     return ("ok", header, tree), fields, problems
 
 
+def run_frontdoor(cases):
+    """the cases that carry an ofxget command line ("argv"), composed through ofxget.main() in a fresh interpreter with a
+    temporary HOME / XDG configuration (tools/ofxv/c06_frontdoor.py) -> run outcomes like run_impl's"""
+    import subprocess
+    jobs = []
+    for c in cases:
+        d = c["dtclient"]
+        jobs.append({"argv": c["argv"], "uuids": c["uuids"], "dtclient": [d["y"], d["mo"], d["d"], d["h"], d["mi"], d["s"], d["us"]]})
+    env = dict(os.environ, PYTHONHASHSEED="0", PYTHONDONTWRITEBYTECODE="1")
+    env.pop("PYTHONPATH", None)
+    p = subprocess.run([C.PY, os.path.join(C.VERIF, "tools", "ofxv", "c06_frontdoor.py")], input=json.dumps({"repo": C.REPO, "jobs": jobs}),
+                       stdout=subprocess.PIPE, stderr=subprocess.PIPE, text=True, env=env, timeout=600)
+    if p.returncode != 0:
+        raise RuntimeError("front-door worker failed: %s" % p.stderr[-800:])
+    outs = []
+    for r in json.loads(p.stdout):
+        if "out" in r:
+            outs.append(("ok", r["out"].encode("utf-8")))
+        else:
+            kind = "reject" if r["err"].split(":")[0] in ("ValueError", "TypeError", "SyntaxError", "OFXSpecError", "OFXTypeError", "OFXHeaderError") else "crash"
+            outs.append((kind, r["err"]))
+    return outs
+
+
+def observe(case):
+    """run the implementation (OFXClient API, or the ofxget command line when the case carries one); read the bytes back twice.
+    -> (outcome, header fields, problems): outcome ('ok', header, tree) uses the independent reader's tree;
+    problems lists what makes the bytes not a well-formed OFX file for the library's reader (parse + convert) and
+    any difference between the two readers' trees."""
+    if case.get("argv"):
+        return read_back_bytes(run_frontdoor([case])[0])
+    return read_back_bytes(run_impl(case))
+
+
 def must_refuse(case):
     """"Versions 2xx refuse to omit end tags": the configuration (or the profile request's overrides) asks for a 2xx file
     without end tags"""
@@ -909,22 +1046,26 @@ def must_refuse(case):
     return False
 
 
-def _observe_worker(case):
+def _observe_worker(w):
     try:
-        return observe(case)
+        return read_back_bytes(w[1]) if w[0] == "bytes" else observe(w[1])
     except Exception as e:              # a harness failure must not pass silently
         return ("harness-error", "%s: %s" % (type(e).__name__, e)), None, None
 
 
 def observe_all(cases):
-    """observe() over all cases, in forked worker processes (the library's convert() dominates the run time)"""
+    """observe() over all cases, in forked worker processes (the library's convert() dominates the run time); the cases with
+    an ofxget command line are composed in ONE fresh interpreter first"""
     import multiprocessing as mp
+    fd = [i for i, c in enumerate(cases) if c.get("argv")]
+    fd_out = dict(zip(fd, run_frontdoor([cases[i] for i in fd]))) if fd else {}
+    work = [("bytes", fd_out[i]) if i in fd_out else ("case", c) for i, c in enumerate(cases)]
     n = min(8, C.NCPU)
     if len(cases) < 64 or n < 2:
-        return [_observe_worker(c) for c in cases]
+        return [_observe_worker(w) for w in work]
     ctx = mp.get_context("fork")
     with ctx.Pool(n) as pool:
-        return pool.map(_observe_worker, cases, chunksize=16)
+        return pool.map(_observe_worker, work, chunksize=16)
 
 
 def run(rep, tier, rng):
@@ -944,6 +1085,8 @@ def run(rep, tier, rng):
         cases.append(("valid", gen_case(rng, False, accttypes)))
     for _ in range(n_mal):
         cases.append(("malformed", gen_case(rng, True, accttypes)))
+    for _ in range(3000 if thorough else 160):
+        cases.append(("frontdoor", gen_frontdoor_case(rng)))     # the same requests asked for on the ofxget command line
 
     items, kept = [], []
     seen_fail = set()
@@ -1029,6 +1172,8 @@ def run(rep, tier, rng):
 
 
 def describe_case(case):
+    if case.get("argv"):
+        return "ofxget " + " ".join(("'%s'" % x if any(ch in x for ch in " []<>&;'\"") else x) for x in case["argv"])
     op = case["op"]
     a = case["init"]
     s = "OFXClient(%s)" % ", ".join("%s=%r" % (k, a[k]) for k in INIT_KEYS if k in a)
